@@ -20,6 +20,10 @@ impl G<'_> {
         for _ in 0..self.indent {
             self.out.push_str("  ");
         }
+        if s.starts_with('(') {
+            // a statement starting with '(' would be read as call arguments of the previous expression
+            self.out.push_str("local _ = 0; ");
+        }
         self.out.push_str(s);
         // line ends: mostly \n, sometimes \r\n, and trailing comments
         match self.rng.below(12) {
